@@ -205,8 +205,8 @@ def rule_arg_roles(ctx: Ctx, prog: Program) -> None:
                 ctx.violation("R-ARG-ROLES", edge.caller.path, edge.caller.qualname, f"{edge.callee.name}.{ps[j]}<-{edge.arg_src[j]}",
                               f"{edge.caller.path}:{edge.node.lineno}",
                               f"{edge.caller.qualname} passes '{edge.arg_src[j]}' (carrying {sorted(got)}) as parameter '{ps[j]}' of {edge.callee.name}")
-    ctx.floor("R-ARG-ROLES:bindings", n, 300)
     # parameters not named after an array: all call sites must agree
+    n_agree = 0
     for f in prog.all_functions():
         for p in f.params:
             if ALIASES.get(p, p) in ENGINE_ROLES:
@@ -214,8 +214,14 @@ def rule_arg_roles(ctx: Ctx, prog: Program) -> None:
             base = {r for r in roles.of(f, p) if not r.startswith("fn:") and not r.endswith("[]")}
             base = {ALIASES.get(b, b) for b in base}
             engine = base & ENGINE_ROLES
+            if engine:
+                n_agree += sum(1 for e_ in roles.edges if e_.callee is f)
+                if len(engine) == 1:
+                    ctx.ok("R-ARG-ROLES", f"{f.qualname}.{p}: every call site passes the same engine array ({sorted(engine)[0]})", nontrivial=False)
             if len(engine) > 1 and not (p == "params" and engine <= {"var_heuristic_params", "dom_heuristic_params"}):
                 ctx.violation("R-ARG-ROLES", f.path, f.qualname, f"param:{p}", f.loc(), f"parameter '{p}' of {f.qualname} receives different engine arrays from different call sites: {sorted(engine)}")
+    # parameters are either named after the array they carry (checked by name) or not (checked by agreement of all call sites)
+    ctx.floor("R-ARG-ROLES:bindings(named + agreeing)", n + n_agree, 300)
 
 
 # ---------------------------------------------------------------------- R-GLOBAL-STATE
